@@ -78,6 +78,26 @@ DoSetCond == Is("set_cond") /\ CtlOk /\ Write(IF e.ctl = "ones" THEN R(e.a) ELSE
 DoSelect == Is("select") /\ CtlOk /\ Write(IF e.ctl = "ones" THEN R(e.a1) ELSE R(e.a0))
 DoCondNeg == Is("set_condneg") /\ CtlOk /\ Write(IF e.ctl = "ones" THEN GNeg(grp, R(e.a)) ELSE R(e.a))
 
+(* ---- GLS254: the endomorphism and the scalar split along it (C04, C11) ---- *)
+\* zeta(P, neg) = mu*P, negated when neg is set
+DoZeta == Is("zeta") /\ CtlOk
+          /\ Write(LET Q == GMul(grp, GlsMu, R(e.a)) IN IF e.ctl = "ones" THEN GNeg(grp, Q) ELSE Q)
+\* split_mu: k = k0 + k1*mu mod r with |k0|, |k1| below 2^127 ("about 2^126.5");
+\* split_mu_odd: the same with both integers odd and below 2^128 ("about 2^127.5").
+\* Signs are logged as masks; a negative zero is not a valid output.
+SignedMod(n, sgn, r) == IF sgn = "ones" THEN ModSub(Zero, Mod(n, r), r) ELSE Mod(n, r)
+SplitMuOk(odd) ==
+    LET r == RGLS254
+        n0 == FromBytesLE(e.n0)   n1 == FromBytesLE(e.n1)
+        k == Mod(FromBytesLE(e.k), r)
+        lim == IF odd THEN Pow2(128) ELSE Pow2(127)
+    IN /\ Has("n0") /\ Has("n1") /\ e.s0 \in {"ones", "zero"} /\ e.s1 \in {"ones", "zero"}
+       /\ Lt(n0, lim) /\ Lt(n1, lim)
+       /\ (odd => Bit(n0, 0) = 1 /\ Bit(n1, 0) = 1)
+       /\ k = ModAdd(SignedMod(n0, e.s0, r), ModMul(SignedMod(n1, e.s1, r), GlsMu, r), r)
+DoSplitMu == Is("split_mu") /\ Observe(SplitMuOk(FALSE))
+DoSplitMuOdd == Is("split_mu_odd") /\ Observe(SplitMuOk(TRUE))
+
 (* ---- structure tests and coordinate maps of the plain curves ---- *)
 FP == CurveOf(grp).p
 FLen == IF grp = "ed448" THEN 56 ELSE 32
@@ -136,6 +156,7 @@ DoXSeq == Is("xseq")
 
 Next == \/ DoInit \/ DoConst \/ DoDecode \/ DoHasLowOrder \/ DoIsInSubgroup \/ DoMontU
         \/ DoToAffine \/ DoToProjective \/ DoFromAffine \/ DoFromProjective \/ DoXSeq
+        \/ DoZeta \/ DoSplitMu \/ DoSplitMuOdd
         \/ DoAdd \/ DoSub \/ DoNeg \/ DoDouble \/ DoXDouble \/ DoMulSmall
         \/ DoMul \/ DoMulGen \/ DoMulAddMulGen \/ DoMul128 \/ DoMul64Mu \/ DoVerifyHelper
         \/ DoOneWayMap \/ DoEncode \/ DoEquals \/ DoIsNeutral \/ DoSetCond \/ DoSelect \/ DoCondNeg
